@@ -17,7 +17,7 @@ RULE = ("(a) 1-6 positive scales log-uniform in [1e-6,1e6] (+ extremes, equal va
         "module that is not a documented rule; (c) per constrained op and constraint name, scalars fitted under the "
         "constraint vs the rule applied (in the harness) to the scalars fitted under None; (d) torch.autograd.gradcheck "
         "on the constrained inputs. Non-trivial = scales not all equal (rules), constraint not None (ops); distinct by "
-        "(kind, rule/op, constraint, shape signature or scale count+spread bucket). Attention also runs with dropout 0.1-0.5 and the mask pinned (generator re-seeded before the library call and before the reference call).")
+        "(kind, rule/op, constraint, shape signature or scale count+spread bucket). Attention also runs with dropout 0.1-0.5 and the mask pinned (generator re-seeded before the library call and before the reference call). A third of the configurations are first run once in bfloat16 / float16 (hidden state keyed by a scale value).")
 ASSUMPTIONS = ["fractions/decimal arithmetic is exact to the stated digits", "torch.autograd.gradcheck finite differences (eps 1e-6)"]
 IMPORTS = ["unit_scaling.constraints", "unit_scaling.functional", "unit_scaling.core.functional"]
 REQUIRED_MONITORS = ["contract:gmean", "contract:hmean", "contract:amean", "contract:apply_constraint",
@@ -369,6 +369,14 @@ def run_op(case, ctx) -> None:
         names = [c for c in op.constraints() if c is not None]
         for name in names:
             ctx.count("evaluations")
+            if seed % 3 == 0 and case["fn"] != "conv1d":
+                # history: the SAME configuration is first run in a 16-bit dtype (hidden state keyed by the scale value - a
+                # cache of scale tensors, a memoised factor - would carry the 16-bit rounding into the float64 run below)
+                try:
+                    run_fit(op, U, cfg, name, torch.bfloat16 if seed % 2 else torch.float16, seed, seed + 1)
+                    ctx.count("history:16-bit-run-of-the-same-configuration-first")
+                except Exception:
+                    ctx.count("history:16-bit-run-raised")
             Cn = run_fit(op, U, cfg, name, torch.float64, seed, seed + 1)
             if Cn.u_exc is not None:
                 ctx.violation(f"C05:{case['fn']}:valid-constraint-raises:{name}:{exc_key(Cn.u_exc)}", repr(Cn.u_exc), cfg=cfg)
